@@ -39,6 +39,11 @@ var selMap = func() map[[2]string]string {
 	return m
 }()
 
+// third-party packages that are replaced by scripted fakes in the rewritten copy: import path -> (name, path)
+var importRedirect = map[string][2]string{
+	"github.com/fasthttp/websocket": {"websocket", "verif/fakews"},
+}
+
 // constructs that would silently escape the scheduler: refuse them
 var forbidden = map[[2]string]bool{
 	{"sync", "Cond"}: true, {"sync", "NewCond"}: true, {"time", "Tick"}: true, {"time", "NewTicker"}: true,
@@ -340,7 +345,7 @@ func (r *rw) selects(f *ast.File) {
 // Packages rewritten by default: everything the controlled-scheduler harnesses import, directly or not.
 var defaultPkgs = []string{
 	"./io", "./internal/convert",
-	"=./rpc/core", "./rpc/mock", "+./rpc/socket", "+./rpc/udp", "./rpc/codec/jsonrpc",
+	"=./rpc/core", "./rpc/mock", "+./rpc/socket", "+./rpc/udp", "./rpc/http", "./rpc/http/cookie", "+./rpc/websocket", "./rpc/codec/jsonrpc",
 	"./rpc/plugins/circuitbreaker", "./rpc/plugins/cluster", "./rpc/plugins/forward", "./rpc/plugins/limiter",
 	"+./rpc/plugins/loadbalance", "./rpc/plugins/log", "./rpc/plugins/oneway", "+./rpc/plugins/push",
 	"=./rpc/plugins/reverse", "./rpc/plugins/timeout",
@@ -408,6 +413,13 @@ func main() {
 				sub = "deps/" + p.Module.Path
 			}
 			dst := filepath.Join(*out, sub, rel)
+			for from, to := range importRedirect {
+				if astutil.UsesImport(f, from) {
+					astutil.DeleteNamedImport(p.Fset, f, "", from)
+					astutil.DeleteImport(p.Fset, f, from)
+					astutil.AddNamedImport(p.Fset, f, to[0], to[1])
+				}
+			}
 			if r.used {
 				astutil.AddNamedImport(p.Fset, f, "vs", vsPath)
 			}
